@@ -709,7 +709,46 @@ def _unbounded_one(ctx, mode, kind, single):
             return
 
 
+def repeated_failures(ctx):
+    """directed: the same failing cell below a chain of 18 formulas asked for forty times on one model (a driver that
+    polls): every attempt fails with a pycel error, cells beside the chain keep their values, and after the failing
+    cell is overwritten everything is as in a fresh model"""
+    install()
+    for mode in ('plain', 'iterative'):
+        for kind in ('nosuch', 'failk-always'):
+            cells = {'A1': 2, 'A2': wrap('=A1*2', kind, 'f'), 'Z1': '=A1+40', 'Z2': '=Z1&"u"'}
+            for i in range(3, 21):
+                cells[f'A{i}'] = f'=A{i - 1}+1'
+            spec = {'sheets': [['Sheet1', cells]], 'names': {}, 'arrays': [],
+                    'calc': {'iterate': True, 'count': 100, 'delta': 1e-9} if mode == 'iterative' else None}
+            plugins.reset()
+            comp = wb.compile_mem(spec, plugins='vp.plugins')
+            case = {'kind': 'repeated-failures'}
+            ctx.count('directed:repeated_failures')
+            ctx.case(('repeated-failures', mode, kind))
+            for attempt_ in range(40):
+                r = call(comp.evaluate, 'Sheet1!A20' if attempt_ % 3 else 'Sheet1!A12')
+                if r[0] != 'pycel':
+                    ctx.violation(f'retry-{"returns-a-value" if r[0] == "v" else "raises-a-bare-exception"}/{mode}/{kind}/many-retries',
+                                  f'attempt {attempt_ + 1} of 40 to evaluate the top of an 18 cell chain over a failing cell gives {r!r}', case)
+                    break
+                if attempt_ % 10 == 9:
+                    z = call(comp.evaluate, 'Sheet1!Z2')
+                    if z != ('v', '42u'):
+                        ctx.violation(f'unrelated-cell-differs/{mode}/{kind}/many-retries',
+                                      f'after {attempt_ + 1} failed attempts evaluate(Z2) = {z!r}, expected 42u', case)
+                        break
+            else:
+                call(comp.set_value, 'Sheet1!A2', 10)
+                top, z = call(comp.evaluate, 'Sheet1!A20'), call(comp.evaluate, 'Sheet1!Z2')
+                if top != ('v', 28) or z != ('v', '42u'):
+                    ctx.violation(f'after-repair-differs/dependant/{mode}/{kind}/many-retries',
+                                  f'after 40 failed attempts and set_value(A2, 10): A20 = {top!r} (expected 28), Z2 = {z!r}', case)
+
+
 def run(ctx):
+    if ctx.shard == 1 % ctx.nshards:
+        repeated_failures(ctx)
     if ctx.shard == ctx.nshards - 1:
         # the repository's own test-suite as one more workload under the monitors (vp.suitemon)
         from vp import suiteload
@@ -748,6 +787,9 @@ def replay(ctx, case):
     if case.get('kind') == 'suite':
         from vp import suiteload
         suiteload.run_suite(ctx)
+        return
+    if case.get('kind') == 'repeated-failures':
+        repeated_failures(ctx)
         return
     if case.get('kind') == 'recursion':
         recursion_case(ctx)
